@@ -1,4 +1,7 @@
+#[cfg(not(attohttpc_verif))]
 use std::{env, vec};
+#[cfg(attohttpc_verif)]
+use {attosim::env, std::vec};
 
 use url::Url;
 
